@@ -42,6 +42,8 @@ def scenario(args):
             lp.load_ack(bytes([0xAC, k, seed & 0xFF]))
         if c["api"] == "txread":
             ev.append(lp.txread())
+        elif c["api"] == "queue":
+            ev.append(lp.queue_only(c["n"]))
         elif c["api"] == "resend":
             ev.append(lp.call("resend", send_only=c.get("send_only", False), fates=c.get("fates")))
         elif c["api"] == "sendlist":
@@ -123,6 +125,12 @@ def build_jobs(chk, tx_lite=False, rx_lite=False):
         for nxt in so_alpha:
             add(dict(arc=1, ard=250, ackpl=True),
                 [dict(api="send", fr=0, send_only=True, fates=["D"]), fail, dict(api="txread"), nxt])
+    # a TX FIFO left full by write(write_only=True) calls (CE low, nothing sent): the next send() still terminates and reports
+    # its own payload's fate
+    if True:
+        for fr in (0, 1):
+            for pat in ("D", "PP"):
+                add(dict(arc=1, ard=250), [dict(api="queue", n=3), dict(api="send", fr=fr, fates=list(pat)), dict(api="send", fr=0, fates=["D"])])
     # (c) seeded large setups
     for _ in range(60 if quick else 1500):
         arc = rng.randrange(16)
@@ -163,6 +171,12 @@ def run(chk, tx_lite=False, rx_lite=False):
     if r3["ok"]:
         raise tlc.TlcError("self-check: the stale-STATUS variant of the algorithm must violate a C02 clause in the model")
     chk.extra["stale_variant_counterexample"] = r3.get("violated")
+    r4 = tlc.mc("Rf24Send", "Rf24Send_queued", timeout=600)
+    chk.add_tlc(r4, "TX FIFO left full by write_only uploads: clauses + termination with the reload step")
+    r5 = tlc.run("Rf24Send", "Rf24Send_queued_old", timeout=300)
+    if r5["ok"]:
+        raise tlc.TlcError("self-check: without the reload step send() must not terminate on a full TX FIFO in the model")
+    chk.extra["no_reload_variant_counterexample"] = r5.get("violated") or "Termination"
     chk.phase("mc")
     jobs = build_jobs(chk, tx_lite, rx_lite)
     with ProcessPoolExecutor(16) as ex:
